@@ -13,6 +13,13 @@ CHECKS = {
         note="Trusted: CBMC 6.11 front end/dfcc/SAT; stubs/std (<limits> constants static_asserted against the real header in the replay build; std::min/max by value); lowering rules L1-L6,L11; double: std::nexttoward replaced by an assumed neighbour function, NaN excluded, + - * on double not under contract; make_empty() not under contract (front-end limit).",
         technique="CBMC function contracts (requires/ensures/assigns) enforced with goto-instrument --dfcc on extern-C wrappers around the real C++ header; ghost parameters for the universal quantifier; native replay of counterexamples",
     ),
+    "C10": dict(
+        category="proof",
+        text="Inductive lemma over guard/invariant formula trees: for each connective (&&, ||, xor, !, <, <=, ==, !=, >=, >, forall, exists; imply via the grammar's NOT+OR desugaring) the REAL clause text of TypeChecker::checkExpression is executed once on symbolic operand types (all base kinds x all wrapper sets) and symbolic ghost summaries; obligations: integral result type => clock-free, guard/invariant result type => convex by the statement's syntactic rule; plus the REAL acceptance gates of visitEdge/visitLocation, atom typing and the conjunction converse. Unbounded in formula depth (induction step), loop-free apart from areEquivalent's record loop (width<=2).",
+        design_ref="DESIGN.md section 4, C10",
+        note="Trusted: flat type abstraction (lemma TYPE-IS), expression arena stub, induction over tree height as meta-step, children-first prologue checked textually, areEquivalent recursion/isSameScalarType answered by arbitrary-result contracts. Scope: operands of relational operators are integral terms, formulas, clock/difference/double/rate terms without hidden comparisons. Known finding C10-KF1 (comparisons outside the recognised clock shapes typed BOOL) is excluded by input class and re-checked to fail only there.",
+        technique="one-level induction step per operator on the sliced real clause text, contract as assume/call/assert harness (mode H) in CBMC; ghost summaries for clock-freeness/convexity; native replay through parse_XTA",
+    ),
 }
 
 NOT_APPLICABLE = {
